@@ -104,6 +104,8 @@ type world struct {
 	viaGrpc   bool
 	acctMgr   *standardaccountmanager.Service
 	traceLog  bool
+	pruning   bool
+	lockWarm  int
 	// stallFirstMs: the FIRST state write after the rules service starts (whoever makes it) stalls that long
 	stallFirstMs int
 	trace     []string
@@ -193,6 +195,12 @@ func (w *world) config(f []string) bool {
 		// every service is built with trace-level logging (to a discarding writer): the code that only runs when a log
 		// entry is enabled runs too
 		w.traceLog = true
+	case "pruning":
+		w.pruning = true // server.rules.periodic-pruning: true (the store's maintenance goroutine runs)
+	case "lockwarm":
+		// the locker has already served that many other validator keys when the scenario starts (synthetic keys, lock and unlock
+		// only: nothing is written)
+		w.lockWarm, _ = strconv.Atoi(f[1])
 	case "stallfirst":
 		w.stallFirstMs, _ = strconv.Atoi(f[1])
 	case "locktrace":
@@ -284,15 +292,24 @@ func (w *world) buildWallets(ctx context.Context) {
 		}
 		if a.dist != "" {
 			parts := map[uint64]string{}
+			var composite []byte // "C=<hex>": the account's COMPOSITE public key (the validator's key), distinct from the share's
 			for _, kv := range strings.Split(a.dist, ";") {
 				i := strings.Index(kv, "=")
+				if kv[:i] == "C" {
+					composite = unhex(kv[i+1:])
+					continue
+				}
 				id, _ := strconv.ParseUint(kv[:i], 10, 64)
 				parts[id] = kv[i+1:]
 			}
 			th := len(parts)/2 + 1
 			var vvec [][]byte
 			for i := 0; i < th; i++ {
-				vvec = append(vvec, a.pubkey)
+				if i == 0 && composite != nil {
+					vvec = append(vvec, composite)
+				} else {
+					vvec = append(vvec, a.pubkey)
+				}
 			}
 			if _, err := wal.(e2wtypes.WalletDistributedAccountImporter).ImportDistributedAccount(ctx, a.name, sk, uint32(th), vvec, parts, pass); err != nil {
 				panic(err)
@@ -327,6 +344,9 @@ func (w *world) begin() string {
 		zerolog.SetGlobalLevel(zerolog.Disabled)
 	}
 	w.buildWallets(ctx)
+	if _, ok := w.fetcher.(*flakyFetcher); !ok {
+		w.fetcher = &flakyFetcher{w.fetcher}
+	}
 
 	if len(w.raws) > 0 {
 		st, err := standardrules.NewStore(ctx, filepath.Join(w.dir, "storage"), false, zerolog.Nop())
@@ -360,6 +380,15 @@ func (w *world) begin() string {
 		installStallFirst(w.stallFirstMs)
 	}
 	w.openRules()
+	for i := 0; i < w.lockWarm; i++ {
+		var k [48]byte
+		k[0] = 0xa1
+		k[46], k[47] = byte(i>>8), byte(i)
+		w.locker.PreLock()
+		w.locker.Lock(k)
+		w.locker.PostLock()
+		w.locker.Unlock(k)
+	}
 	return "ok"
 }
 
@@ -370,7 +399,7 @@ func (w *world) openRules() {
 	w.ctx, w.cancel = context.WithCancel(context.Background())
 	w.rules, err = standardrules.New(w.ctx,
 		standardrules.WithStoragePath(filepath.Join(w.dir, "storage")),
-		standardrules.WithAdminIPs(w.adminIPs))
+		standardrules.WithAdminIPs(w.adminIPs), standardrules.WithPeriodicPruning(w.pruning))
 	if err != nil {
 		panic(err)
 	}
